@@ -56,11 +56,43 @@ def observe(text):
             return visit_X
         setattr(W, "visit_" + cls, mk(cls))
     W().visit(ast)
+    # what a visit_X method returns must not influence the traversal: methods that return truthy /
+    # falsy values of several kinds, on leaf classes and (calling generic_visit themselves) on inner ones
+    retproblem = None
+    want = {}
+
+    def walk(n):
+        want[type(n).__name__] = want.get(type(n).__name__, 0) + 1
+        for _, c in n.children():
+            walk(c)
+
+    walk(ast)
+    for values in ([True, 1, "x", [0], 2.5], [None, 0, "", [], False], [True, None, "v", 0, object()]):
+        got = {}
+
+        class RV(c_ast.NodeVisitor):
+            pass
+
+        def mkr(name, inner):
+            def visit_X(self, node):
+                got[name] = got.get(name, 0) + 1
+                if inner:
+                    self.generic_visit(node)
+                v = values[(got[name] + len(name)) % len(values)]
+                return node if v is True else v
+            return visit_X
+        for name, inner in (("ID", False), ("Constant", False), ("IdentifierType", False), ("Decl", True), ("BinaryOp", True), ("Return", True)):
+            setattr(RV, "visit_" + name, mkr(name, inner))
+        RV().visit(ast)
+        exp = {k: want[k] for k in ("ID", "Constant", "IdentifierType", "Decl", "BinaryOp", "Return") if k in want}
+        if got != exp:
+            retproblem = "visitor whose visit_X methods return values %r intercepted %r, the tree has %r" % (values, got, exp)
+            break
     buf = io.StringIO()
     ast.show(buf=buf)
     lines = buf.getvalue().count("\n")
     from ..pyparse import dump
-    return ("OK\t%d\t%s\t%d\t%d\t%d" % (count(ast), " ".join(trace), lines, hits["x"], hits["g"]), dump(ast, False))
+    return ("OK\t%d\t%s\t%d\t%d\t%d" % (count(ast), " ".join(trace), lines, hits["x"], hits["g"]), dump(ast, False), retproblem)
 
 
 def visitor_history(text):
@@ -204,7 +236,7 @@ def classify(replay):
 
 def run(ctx):
     texts = [t for t in progs.pool(ctx, scale=0.3) if len(t) < 6000]
-    ctx.rule("class-level part: 49 classes x every subset of absent node-valued fields, exhaustive, as kernel-checked obligations on regenerated observations and, to name a concrete failing class/field set, evaluated on the live classes against _c_ast.cfg read independently of _ast_gen.py (positional constructor order, attr_names, children() names/objects/order, iteration = children()); tree-level part: visitor classes related by inheritance used in several orders on one AST (interception must not depend on history); for the programs of the pool (" + progs.RULE + ") a counting NodeVisitor, a visitor overriding visit_BinaryOp/visit_Decl/visit_Compound and show() on the real AST vs the generic model")
+    ctx.rule("class-level part: 49 classes x every subset of absent node-valued fields, exhaustive, as kernel-checked obligations on regenerated observations and, to name a concrete failing class/field set, evaluated on the live classes against _c_ast.cfg read independently of _ast_gen.py (positional constructor order, attr_names, children() names/objects/order, iteration = children()); tree-level part: visitor classes related by inheritance used in several orders on one AST (interception must not depend on history); for the programs of the pool (" + progs.RULE + ") a counting NodeVisitor, a visitor overriding visit_BinaryOp/visit_Decl/visit_Compound, visitors whose visit_X methods return truthy / falsy values of several kinds (the traversal must not depend on them) and show() on the real AST vs the generic model")
     ncls = class_level(ctx)
     ctx.count(ncls, nontrivial_n=ncls)
     hist_texts = [t for t in texts if "1" in t and "+" in t][:40]
@@ -223,7 +255,9 @@ def run(ctx):
         keys.add(t)
         f = o.split("\t")
         n, trace, lines = int(f[1]), f[2].split(), int(f[3])
-        if len(trace) != n:
+        if both[i][2]:
+            ctx.violation(both[i][2] + " on %r" % t[:100], {"kind": "text", "text": t})
+        elif len(trace) != n:
             ctx.violation("generic traversal visited %d nodes of %d on %r" % (len(trace), n, t[:100]), {"kind": "text", "text": t})
         elif lines != n:
             ctx.violation("show() printed %d lines for %d nodes on %r" % (lines, n, t[:100]), {"kind": "text", "text": t}, classify)
@@ -243,10 +277,11 @@ def replay(ctx, payload):
         why = class_case(i["class"], dict(cfg_classes())[i["class"]], i["present"])
         print(why)
         return why is None
-    o = observe(payload["input"]["text"])[0]
-    print(o)
+    ob = observe(payload["input"]["text"])
+    o = ob[0]
+    print(o, ob[2])
     f = o.split("\t")
-    return int(f[1]) == len(f[2].split()) == int(f[3])
+    return int(f[1]) == len(f[2].split()) == int(f[3]) and not ob[2]
 
 
 def replay_finding(ctx, f):
